@@ -22,6 +22,8 @@ Line protocol (tokens: text = hex of UTF-8, `-` empty, `~` None; typed values `i
   cact <i> <name> <in> <out> ; cend <i>       the client's service model (raw texts + typed public properties)
   call <i> <action> <args dict> <script R:<dict>|E:<code|N>>  then  cobs <seen dict|!> <ok:<dict>|ae:c:s|re:s|ce:Exc>
   raw <i> <soapaction|~> <xml rose|X> <script>                then  robs <seen> <resp:status:fault:rets|unh:Exc>
+  xcheck ok|diff:<hex>                        sampled cases: the same recipe served by aiohttp's TestServer on 127.0.0.1 and
+                                              driven by the real AiohttpRequester gave the same observations
 """
 from __future__ import annotations
 
@@ -40,19 +42,21 @@ GEN_MODULES: List[str] = ["C14Types"]
 MANIFEST = {
     "design_ref": "§5 C14",
     "text": ("Lean theorems over the executable tree-level model of server.py's HTTP side composed with the client "
-             "(Props/C14.lean): client_sees_variable and client_sees_definition_partial (for every well-formed variable / "
-             "state table the client's parse of the served SCPD equals the definition: type, evented flag, typed bounds incl. "
-             "one-sided ranges, allowed set, default; the action list and device tree are judged at run time, not proved), "
-             "call_roundtrip (every valid call reaches the handler with the same typed values and returns the handler's typed "
-             "results), handler_error_propagates (same UPnP code), bad_request_never_unhandled / invalid_request_rejected / "
+             "(Props/C14.lean): client_sees_definition (for every constructible service definition the client's parse of "
+             "the served SCPD equals the definition: variables with type, evented flag, typed bounds incl. one-sided ranges, "
+             "allowed set, default; actions with argument names, directions and variable bindings), client_sees_device_tree "
+             "(embedded devices and services, any depth), call_roundtrip (every valid call made with the client's own action "
+             "object reaches the handler with the same typed values and returns the handler's typed results), "
+             "handler_error_propagates (same UPnP code), bad_request_never_unhandled / invalid_request_rejected / "
              "invalid_request_judged (for every request tree and header: SOAP fault or 4xx, never an escaping exception), "
              "gen_types_ok over the generated type table. The model is tied to the code by that table (const.py) and a "
              "differential check of served documents, client model, handler inputs, results and statuses; the Lean judge "
-             "is evaluated on the implementation's observations."),
+             "is evaluated on the implementation's observations; the mocked-request path is cross-checked against a real "
+             "HTTP server on loopback."),
     "note": ("Trusted: Lean kernel + standard axioms; XML text<->tree (ElementTree/expat, escaping), aiohttp routing and "
              "request plumbing, voluptuous, Python int()/float()/datetime are outside the model (sampled by the "
              "correspondence runs; float/date/time codecs enter the model as harness-supplied facts and a round-trip "
-             "hypothesis). Icons, allowedValueRange/step and date/time-typed defaults are not generated."),
+             "hypothesis). Icons, allowedValueRange/step, empty allowed values and ranges / allowed lists on date/time types are not generated."),
     "technique": "Lean 4 proof (structural induction over definitions, argument lists and request trees) + generated table + model/implementation correspondence",
 }
 RULE = ("generated server definitions (1..3 services over a root and up to 2 embedded devices, 0..6 variables of all 26 "
@@ -66,8 +70,8 @@ ASSUMPTIONS = [
     "XML text <-> tree (ElementTree serialisation/parsing, escaping) is not modelled: the model works on parsed trees; texts avoid U+000D (F06b, C06) and characters outside XML 1.0",
     "names (variables, actions, arguments) are XML names without whitespace; service types contain no '#' or '\"'; names are unique per service (Python dict keys)",
     "float, date and time codecs are not modelled: coerce_python on the texts that occur is supplied to the model by the harness (fact lines); their round trip is a hypothesis of call_roundtrip",
-    "typed values are exactly of the mapped Python type (no bool for int, F06a; no datetime for date); floats are finite, datetimes/times have whole seconds",
-    "allowed lists hold non-empty texts; bounds are non-empty and parse; date/time typed variables carry no default (F05a, C05) and no range/allowed list",
+    "typed values are of the mapped Python type (a bool given for an integer argument is generated and is the integer 1/0; no datetime for date); floats are finite, datetimes/times have whole seconds",
+    "allowed lists hold non-empty texts; bounds are non-empty and parse; date/time typed variables carry defaults but no range / allowed list",
     "handlers keep their contract: results are out-arguments with values valid for the related variable, or UpnpActionError",
     "device icons, allowedValueRange step and max_rate are not part of the compared model",
 ]
@@ -449,7 +453,7 @@ def client_result_tok(fn_result: Any, exc: Optional[BaseException]) -> str:
     return f"ce:{exc_token(exc).replace('RAW:', '')}"
 
 
-async def run_case(recipe: Dict[str, Any]) -> Tuple[List[str], List[str], bool]:
+async def run_case(recipe: Dict[str, Any], loopback: bool = False) -> Tuple[List[str], List[str], bool]:
     import async_upnp_client.server as srv
     from async_upnp_client.client_factory import UpnpFactory
 
@@ -502,23 +506,58 @@ async def run_case(recipe: Dict[str, Any]) -> Tuple[List[str], List[str], bool]:
         return _with_facts(w, lines), sorted(tags | {"built:fail"}), False
     lines.append("built ok")
 
+    # -- transport: the real handlers on mocked requests, or (cross-check) a real HTTP server on loopback
+    tserver = None
+    base = BASE
+    if loopback:
+        import logging
+        from aiohttp.test_utils import TestServer
+        logging.getLogger("aiohttp.server").setLevel(logging.CRITICAL)  # escaping exceptions are expected observations
+        logging.getLogger("aiohttp.web").setLevel(logging.CRITICAL)
+        tserver = TestServer(app, host="127.0.0.1")
+        await tserver.start_server()
+        base = f"http://127.0.0.1:{tserver.port}"
+
+    async def xfer(method: str, path: str, headers: Dict[str, str], body: bytes):
+        if tserver is None:
+            return await dispatch(app, method, path, headers, body)
+        from aiohttp import ClientSession
+        async with ClientSession() as sess:
+            async with sess.request(method, base + path, headers=headers, data=body) as resp:
+                return resp.status, await resp.text(), None
+
+    try:
+        return await _run_ops(recipe, w, lines, tags, svcs, app, xfer, base, loopback)
+    finally:
+        if tserver is not None:
+            await tserver.close()
+
+
+async def _run_ops(recipe, w, lines, tags, svcs, app, xfer, base, loopback):
+    defn = recipe["defn"]
+    from async_upnp_client.client_factory import UpnpFactory
+
     # -- served documents
-    st, text, exc = await dispatch(app, "GET", "/device.xml", {}, b"")
+    st, text, exc = await xfer("GET", "/device.xml", {}, b"")
     if exc is not None or st != 200:
         lines.append(f"sdoc !{st}:{exc_token(exc) if exc else ''}")
     else:
         lines.append(f"sdoc {xml_rose(ET.fromstring(text))}")
     for i, s in enumerate(svcs):
-        st, text, exc = await dispatch(app, "GET", s["scpd"], {}, b"")
+        st, text, exc = await xfer("GET", s["scpd"], {}, b"")
         if exc is not None or st != 200:
             lines.append(f"sscpd {i} !{st}:{exc_token(exc) if exc else ''}")
         else:
             lines.append(f"sscpd {i} {xml_rose(ET.fromstring(text))}")
 
     # -- the library's own client
-    requester = make_requester(app)
+    if loopback:
+        from async_upnp_client.aiohttp import AiohttpRequester
+        requester = AiohttpRequester()
+    else:
+        requester = make_requester(app)
     try:
-        cdev = await UpnpFactory(requester).async_create_device(BASE + "/device.xml")
+        cdev = await UpnpFactory(requester).async_create_device(base + "/device.xml")
     except Exception as e:  # noqa: BLE001
         lines.append(f"cdevres fail:{exc_token(e).replace('RAW:', '')}")
         return _with_facts(w, lines), sorted(tags | {"client:fail"}), True
@@ -575,6 +614,8 @@ async def run_case(recipe: Dict[str, Any]) -> Tuple[List[str], List[str], bool]:
                 res = await csvcs[i].actions[op["act"]].async_call(**args)
             except Exception as e:  # noqa: BLE001
                 exc = e
+            if any(isinstance(x, bool) and vtypes.get(dict(map(tuple, adef["in"])).get(k)) in INT_TYPES for k, x in args.items()):
+                tags.add("call:bool-for-int")
             lines.append(f"cobs {dict_tok(w.seen)} {client_result_tok(res, exc)}")
             tags.add("call:" + client_result_tok(res, exc).split(":")[0] + ("-err" if "err" in sc else ""))
             nontrivial = nontrivial or bool(args) or bool(sc.get("ret"))
@@ -596,7 +637,7 @@ async def run_case(recipe: Dict[str, Any]) -> Tuple[List[str], List[str], bool]:
             headers = {"Content-Type": 'text/xml; charset="utf-8"'}
             if sa is not None:
                 headers["SOAPAction"] = sa
-            st, text, exc = await dispatch(app, "POST", s["ctl"], headers, btext.encode("utf-8"))
+            st, text, exc = await xfer("POST", s["ctl"], headers, btext.encode("utf-8"))
             if exc is not None:
                 obs = f"unh:{exc_token(exc).replace('RAW:', '')}"
             else:
@@ -640,6 +681,22 @@ def run_recipe(ctx: Ctx, recipe: Dict[str, Any], cid: str) -> Case:
     try:
         asyncio.set_event_loop(loop)
         lines, tags, nontrivial = loop.run_until_complete(run_case(recipe))
+        if recipe.get("xcheck"):
+            # cross-check of the harness' mocked-request path against a real HTTP server on loopback driven
+            # by the real AiohttpRequester: identical observations, except that an escaping exception is seen
+            # as aiohttp's bare 500
+            import re as _re
+            try:
+                l2, _, _ = loop.run_until_complete(run_case(recipe, loopback=True))
+                want = [_re.sub(r"unh:\w+", "resp:500:~:!", x) for x in lines]
+                diff = next((f"{a[:120]}<>{b[:120]}" for a, b in zip(want, l2) if a != b), None)
+                if diff is None and len(want) != len(l2):
+                    diff = f"length {len(want)}<>{len(l2)}"
+                res = "ok" if diff is None else "diff:" + tok_str(diff)
+            except Exception as e:  # noqa: BLE001
+                res = "diff:" + tok_str(f"loopback run failed: {type(e).__name__}: {e}"[:200])
+            lines = lines + [f"xcheck {res}"]
+            tags = sorted(set(tags) | {"xcheck:" + res.split(":")[0]})
         pending = [t for t in asyncio.all_tasks(loop) if not t.done()]
         for t in pending:
             t.cancel()
@@ -743,7 +800,29 @@ def g_var(rng, name: str) -> Dict[str, Any]:
             v["allowed"] = [rng.choice(["1", "true", "yes", "0", "no", "TRUE", "False"]) for _ in range(rng.randrange(1, 3))]
         if rng.random() < 0.4:
             v["default"] = rng.choice(v["allowed"]) if "allowed" in v else rng.choice(["1", "0", "true", "no", "Yes"])
+    else:
+        # date / time families: a default in any of the spellings parse_date_time accepts for the type
+        if rng.random() < 0.4:
+            v["default"] = g_date_text(rng, dtype)
     return v
+
+
+def g_date_text(rng, dtype: str) -> str:
+    y, mo, d = rng.randrange(1, 9999), rng.randrange(1, 13), rng.randrange(1, 29)
+    h, mi, s = rng.randrange(24), rng.randrange(60), rng.randrange(60)
+    off = rng.choice(["+00:00", "+01:00", "-05:30", "+1400", "-0045", " +0200"])
+    date, tim = f"{y:04d}-{mo:02d}-{d:02d}", f"{h:02d}:{mi:02d}:{s:02d}"
+    if dtype == "date":
+        return date
+    if dtype == "time":
+        return tim + (off if rng.random() < 0.3 else "")
+    if dtype == "time.tz":
+        return tim + off
+    sep = rng.choice(["T", "T", " "])
+    if dtype == "dateTime":
+        c = rng.randrange(4)
+        return f"{date}{sep}{tim}" if c else f"{date}T{tim}" + rng.choice([off, "Z", "z"])
+    return f"{date}T{tim}" + rng.choice([off, "Z", "z"])
 
 
 def g_defn(rng, small: bool = False) -> Dict[str, Any]:
@@ -790,6 +869,12 @@ def valid_value(rng, v: Dict[str, Any]) -> Any:
     """a recipe-encoded typed value valid for the variable"""
     dtype = v["dtype"]
     if dtype in INT_TYPES:
+        if rng.random() < 0.08:  # a bool where an int is expected (F06a): it is the integer 1 / 0
+            for b in (rng.random() < 0.5, True, False):
+                ok = (int(b) in [int(a) for a in v["allowed"]]) if v.get("allowed") else True
+                ok = ok and (v.get("min") is None or int(v["min"]) <= int(b)) and (v.get("max") is None or int(b) <= int(v["max"]))
+                if ok:
+                    return b
         if v.get("allowed"):
             return int(rng.choice(v["allowed"]))
         lo = int(v["min"]) if v.get("min") is not None else None
@@ -908,6 +993,20 @@ def g_script(rng, svc, act) -> Dict[str, Any]:
     ret = {}
     for name, var in outs:
         ret[name] = valid_value(rng, vmap[var])
+    if c == 3 and rng.random() < 0.5:
+        # the handler breaks its contract: unknown key, wrong type, or a value its own variable rejects
+        k = rng.randrange(3)
+        if k == 0 or not outs:
+            ret["Bogus"] = 1
+        else:
+            name, var = rng.choice(outs)
+            bad = invalid_text(rng, vmap[var])[1] if k == 2 else None
+            ret[name] = "wrong" if vmap[var]["dtype"] not in STR_TYPES else 7
+            if vmap[var]["dtype"] in INT_TYPES and bad is not None:
+                try:
+                    ret[name] = int(bad)
+                except ValueError:
+                    pass
     return {"ret": ret}
 
 
@@ -987,13 +1086,16 @@ def generate(ctx: Ctx) -> List[Case]:
     cases: List[Case] = []
     i = 0
     for rec in CORPUS:
-        cases.append(run_recipe(ctx, rec, f"corpus{i}"))
+        cases.append(run_recipe(ctx, {**rec, "xcheck": True}, f"corpus{i}"))
         i += 1
     n = 3000 if ctx.thorough else 330
     for _ in range(n):
         defn = g_defn(rng)
         ops = g_ops(rng, defn, 2 if not ctx.thorough else 3, 4 if not ctx.thorough else 6)
-        cases.append(run_recipe(ctx, {"defn": defn, "ops": ops}, f"r{i}"))
+        rec = {"defn": defn, "ops": ops}
+        if i % (20 if ctx.thorough else 40) == 0:
+            rec["xcheck"] = True
+        cases.append(run_recipe(ctx, rec, f"r{i}"))
         i += 1
     return cases
 
